@@ -1,7 +1,7 @@
 (* C10 — the decision procedures of Spec.v decide the Props, the model satisfies them, and the
    witnesses for the sentences that are false without their hypothesis. *)
 From Coq Require Import List ZArith Bool Lia.
-From Verif Require Import Gen.Gen_consts C10.Model C10.Spec C10.Proofs_Pick C10.Proofs_Adjust C10.Proofs_Budget.
+From Verif Require Import Gen.Gen_consts C10.Model C10.Spec C10.Proofs_Pick C10.Proofs_Adjust C10.Proofs_Budget C10.Proofs_Float.
 Import ListNotations.
 Open Scope Z_scope.
 
@@ -107,6 +107,8 @@ Proof.
     { exfalso. apply andb_true_iff in A. destruct A as [_ A]. apply negb_true_iff in A.
       apply Z.eqb_neq in A. exact (A H). }
     destruct (enough && negb (lenZ ctr =? target i)) eqn:B; [discriminate|].
+    destruct (enough && (2 <=? dedup_len (a_old i) + ceil_div (lenZ (a_procs i)) 10) && negb (2 <=? lenZ ctr)) eqn:T;
+      [discriminate|].
     destruct (eq_listZ podd root) eqn:C; cbn [negb] in H; [|discriminate].
     split.
     { destruct (eq_listZ ctr old) eqn:S; [left; apply Hsame; reflexivity|].
@@ -116,12 +118,15 @@ Proof.
     { intros Hle. apply Hen in Hle. rewrite Hle in A, B. cbn [orb andb] in A, B.
       apply negb_false_iff in A. apply negb_false_iff in B.
       split; [apply Hset; apply Z.eqb_eq; exact A | apply Z.eqb_eq; exact B]. }
+    split.
+    { intros Hle H2'. apply Hen in Hle. apply Z.leb_le in H2'. rewrite Hle, H2' in T. cbn [andb] in T.
+      apply negb_false_iff in T. apply Z.leb_le. exact T. }
     split; [apply Hpr; reflexivity|].
     destruct (a_static i).
     + destruct (eq_listZ root old || unprotected_existingb i root) eqn:D; [|discriminate].
       apply orb_true_iff in D. destruct D as [D|D]; [left; apply Hro; exact D | right; apply Hun; exact D].
     + destruct (eq_listZ root ctr) eqn:D; [apply Hrc; reflexivity | discriminate].
-  - intros [H1 [H2 [H3 H4]]].
+  - intros [H1 [H2 [H2t [H3 H4]]]].
     assert (A : (enough || negb (eq_listZ ctr old)) && negb (set_code i ctr =? 0) = false).
     { destruct enough eqn:E.
       - destruct (H2 (proj1 Hen eq_refl)) as [Hok _]. apply Hset in Hok. rewrite Hok. reflexivity.
@@ -132,7 +137,12 @@ Proof.
     assert (B : enough && negb (lenZ ctr =? target i) = false).
     { destruct enough eqn:E; [|reflexivity].
       destruct (H2 (proj1 Hen eq_refl)) as [_ Hl]. rewrite Hl, Z.eqb_refl. reflexivity. }
-    rewrite B. apply Hpr in H3. rewrite H3. cbn [negb].
+    rewrite B.
+    assert (T : enough && (2 <=? dedup_len (a_old i) + ceil_div (lenZ (a_procs i)) 10) && negb (2 <=? lenZ ctr) = false).
+    { destruct enough eqn:E; [|reflexivity]. cbn [andb].
+      destruct (2 <=? dedup_len (a_old i) + ceil_div (lenZ (a_procs i)) 10) eqn:E2; [|reflexivity]. cbn [andb].
+      apply Z.leb_le in E2. specialize (H2t (proj1 Hen eq_refl) E2). apply Z.leb_le in H2t. rewrite H2t. reflexivity. }
+    rewrite T. apply Hpr in H3. rewrite H3. cbn [negb].
     destruct (a_static i).
     + destruct H4 as [H4|H4]; [apply Hro in H4; rewrite H4; reflexivity|].
       apply Hun in H4. rewrite H4. rewrite orb_true_r. reflexivity.
@@ -203,26 +213,64 @@ Qed.
 Lemma rt_ok_perturb k idx d i : rt_ok (perturb k idx d i) = rt_ok i.
 Proof. unfold rt_ok. rewrite node_reserved_perturb. reflexivity. Qed.
 
-(* the decision procedure run on the model's own observable, for the perturbation kinds the
-   antitone theorem covers (0 = none, 1..3 = a consumer or the system uses more) *)
-Lemma budget_code_model k idx d i : rt_ok i = true -> k <> 4 ->
+(* the decision procedure run on the model's own observable, for every perturbation kind *)
+Lemma budget_code_model k idx d i : rt_ok i = true -> Forall (fun p => 0 <= p_use p) (b_pods i) ->
   budget_code k idx d i [budget i; budget (perturb k idx d i)] = 0.
 Proof.
-  intros Hok Hk. unfold budget_code.
+  intros Hok Hnn. unfold budget_code.
   assert (H1 : budget_holdsb i (budget i) = true)
     by (apply budget_holdsb_spec; apply budget_formula; exact Hok).
   assert (H2 : budget_holdsb (perturb k idx d i) (budget (perturb k idx d i)) = true).
   { apply budget_holdsb_spec. apply budget_formula. rewrite rt_ok_perturb. exact Hok. }
   rewrite H1, H2. cbn [negb].
-  assert (E4 : (k =? 4) = false) by (apply Z.eqb_neq; exact Hk). rewrite E4. cbn [andb].
-  destruct ((1 <=? k) && (k <=? 3) && (0 <=? d)) eqn:E; [|reflexivity]. cbn [andb].
-  apply andb_true_iff in E. destruct E as [E E3]. apply andb_true_iff in E. destruct E as [E1 E2].
-  apply Z.leb_le in E1. apply Z.leb_le in E2. apply Z.leb_le in E3.
-  assert (Hle : budget (perturb k idx d i) <= budget i).
-  { apply budget_antitone; [|apply perturb_grows; lia].
-    unfold rt_ok in Hok. apply andb_true_iff in Hok. apply Z.leb_le. exact (proj2 Hok). }
-  apply Z.leb_le in Hle. rewrite Hle. reflexivity.
+  destruct ((1 <=? k) && (k <=? 3) && (0 <=? d)) eqn:E.
+  - cbn [andb].
+    apply andb_true_iff in E. destruct E as [E E3]. apply andb_true_iff in E. destruct E as [E1 E2].
+    apply Z.leb_le in E1. apply Z.leb_le in E2. apply Z.leb_le in E3.
+    assert (Hle : budget (perturb k idx d i) <= budget i).
+    { apply budget_antitone; [|apply perturb_grows; lia].
+      unfold rt_ok in Hok. apply andb_true_iff in Hok. apply Z.leb_le. exact (proj2 Hok). }
+    apply Z.leb_le in Hle. rewrite Hle. cbn [negb].
+    assert (E4 : (k =? 4) = false) by (apply Z.eqb_neq; lia). rewrite E4. reflexivity.
+  - cbn [andb].
+    destruct (k =? 4) eqn:E4; [|reflexivity]. apply Z.eqb_eq in E4. subst k. cbn [andb].
+    destruct (0 <=? d) eqn:Ed; [|reflexivity]. apply Z.leb_le in Ed. cbn [andb].
+    destruct (nth_error (b_pods i) (Z.to_nat idx)) as [p|] eqn:En.
+    + destruct (pod_nonbe p) eqn:Enb; [|reflexivity]. cbn [andb].
+      assert (Hle : budget (perturb 4 idx d i) <= budget i + 1).
+      { apply budget_slack; try assumption. rewrite En. exact Enb. }
+      apply Z.leb_le in Hle. rewrite Hle. reflexivity.
+    + cbn [andb].
+      assert (Hle : budget (perturb 4 idx d i) <= budget i + 1).
+      { apply budget_slack; try assumption. rewrite En. exact I. }
+      apply Z.leb_le in Hle. rewrite Hle. reflexivity.
 Qed.
+
+(* ---------------------------------------------------------------- the same without the float hypothesis *)
+
+Lemma budget_formula_any i : node_reserved i < 2 ^ 50 -> budget_holds i (budget i).
+Proof. intros H. apply budget_formula. apply rt_ok_holds. exact H. Qed.
+
+Lemma sys_at_least_reserved_any i : node_reserved i < 2 ^ 50 -> node_reserved i - 1 <= sys_milli i.
+Proof. intros H. apply sys_at_least_reserved. apply rt_ok_holds. exact H. Qed.
+
+Lemma budget_antitone_any i i' : node_reserved i < 2 ^ 50 -> grows i i' -> budget i' <= budget i.
+Proof.
+  intros H. apply budget_antitone.
+  pose proof (rt_ok_holds i H) as Hok. unfold rt_ok in Hok.
+  apply andb_true_iff in Hok. apply Z.leb_le. exact (proj2 Hok).
+Qed.
+
+Lemma budget_slack_any idx d i : node_reserved i < 2 ^ 50 -> 0 <= d ->
+  Forall (fun p => 0 <= p_use p) (b_pods i) ->
+  match nth_error (b_pods i) (Z.to_nat idx) with Some p => pod_nonbe p = true | None => True end ->
+  budget (perturb 4 idx d i) <= budget i + 1.
+Proof. intros H. apply budget_slack. apply rt_ok_holds. exact H. Qed.
+
+Lemma budget_code_model_any k idx d i : node_reserved i < 2 ^ 50 ->
+  Forall (fun p => 0 <= p_use p) (b_pods i) ->
+  budget_code k idx d i [budget i; budget (perturb k idx d i)] = 0.
+Proof. intros H. apply budget_code_model. apply rt_ok_holds. exact H. Qed.
 
 (* ---------------------------------------------------------------- witnesses *)
 
